@@ -187,7 +187,35 @@ class SymItemList:
         return self
 
     def __eq__(self, o):
-        return o is self
+        """list equality: same length and the same item at every position.  Decided symbolically (the path forks):
+        E => lengths equal and items agree wherever either list is read;  not E => lengths differ or a witness
+        position holds different items"""
+        if o is self:
+            return True
+        if not isinstance(o, SymItemList):
+            if isinstance(o, (list, tuple)) and len(o) == 0:
+                return bool(wrap(self.zn() == 0))
+            if isinstance(o, (list, tuple)):
+                raise core.Unsupported("comparison of a symbolic item list with a concrete list")
+            return False
+        c = ctx()
+        cache = c.__dict__.setdefault("_itemlist_eq", {})
+        key = tuple(sorted((id(self), id(o))))
+        if key not in cache:
+            E = c.fresh(f"same_items_{self.name}_{o.name}", "bool")
+            w = c.fresh(f"w_items_{self.name}_{o.name}", "int")
+            na, nb = self.zn(), o.zn()
+            a_at, b_at = self._at, o._at
+            c.assume(z3.Implies(E, na == nb), why="equal lists have equal lengths")
+            c.assume(z3.Implies(z3.Not(E), z3.Or(na != nb, z3.And(w >= 0, w < na, a_at(w) != b_at(w)))), why="unequal lists differ somewhere")
+            fact = lambda j: z3.Implies(z3.And(E, j >= 0, j < na), a_at(j) == b_at(j))
+            c.add_trigger(f"item_{self.name}", fact)
+            c.add_trigger(f"item_{o.name}", fact)
+            cache[key] = (E, self, o)  # (keep both lists alive: ids are the key)
+        return bool(wrap(cache[key][0]))
+
+    def __ne__(self, o):
+        return not self.__eq__(o)
 
     def __hash__(self):
         return id(self)
